@@ -10,6 +10,7 @@ coq/Properties/*.v and the proofs that depend on the value.
 The file is only rewritten when its content changes, so an unchanged tree
 costs no recompilation.
 """
+import json
 import os
 import re
 import sys
@@ -22,6 +23,87 @@ class TranslatorError(Exception):
     pass
 
 
+# ---- blocks -------------------------------------------------------------------------------
+# The translation is cut into named blocks.  A block whose patterns no longer match the source
+# (the code was re-shaped) does not stop the translation: its definitions are kept as they were
+# read the last time the block could be translated (the text between its markers in the existing
+# Generated.v), and the block is reported in translator_status.json together with the names it
+# defines.  `check` then reports the tie as broken for exactly the properties whose proofs or
+# model use one of those names (or that the block names explicitly), and for no other property.
+L = []
+FAILED = []
+OLD_BLOCKS = {}
+
+
+def load_old_blocks():
+    OLD_BLOCKS.clear()
+    try:
+        with open(os.path.normpath(OUT), encoding="utf-8") as f:
+            old = f.read()
+    except OSError:
+        return
+    parts = re.split(r"^\(\* @block (\w+) \*\)\n", old, flags=re.M)
+    for i in range(1, len(parts) - 1, 2):
+        OLD_BLOCKS[parts[i]] = parts[i + 1]
+
+
+class blk:
+    def __init__(self, name, props=()):
+        self.name, self.props = name, list(props)
+
+    def __enter__(self):
+        L.append(f"(* @block {self.name} *)")
+        self.start = len(L)
+        return self
+
+    def __exit__(self, et, ev, tb):
+        if et is None:
+            return False
+        if not issubclass(et, (TranslatorError, ValueError, KeyError, IndexError, AttributeError, NameError)):
+            return False
+        if self.name not in OLD_BLOCKS:
+            return False           # nothing to fall back on: hard failure
+        del L[self.start:]
+        old = OLD_BLOCKS[self.name].rstrip("\n")
+        if old:
+            L.extend(old.split("\n"))
+        names = re.findall(r"^Definition (\w+)", old, flags=re.M)
+        FAILED.append({"block": self.name, "error": str(ev), "names": names, "props": self.props})
+        return True
+
+
+_CONSTS = None
+
+
+def const_table():
+    """every `const NAME: T = expr;` of the crate (associated consts included)"""
+    global _CONSTS
+    if _CONSTS is None:
+        _CONSTS = {}
+        for dp, _, fs in os.walk(os.path.join(REPO, "src")):
+            for fn in fs:
+                if fn.endswith(".rs"):
+                    with open(os.path.join(dp, fn), encoding="utf-8") as f:
+                        for m in re.finditer(r"\bconst\s+([A-Z][A-Z0-9_]*)\s*:\s*[^=;]+=\s*([^;]+);", f.read()):
+                            _CONSTS.setdefault(m.group(1), set()).add(m.group(2).strip())
+    return _CONSTS
+
+
+def resolve(tok):
+    """a literal written through a named constant (`LO`, `Self::LO`, `consts::LO`) -> its text"""
+    tok = tok.strip()
+    for _ in range(4):
+        m = re.fullmatch(r"(-?)\s*(?:\w+::)*([A-Z][A-Z0-9_]*)", tok)
+        if not m:
+            break
+        vals = const_table().get(m.group(2))
+        if not vals or len(vals) != 1:
+            break
+        v = next(iter(vals))
+        tok = ("-" + v if not v.startswith("-") else v[1:]) if m.group(1) else v
+    return tok
+
+
 def src(rel):
     with open(os.path.join(REPO, "src", rel), encoding="utf-8") as f:
         return f.read()
@@ -30,12 +112,16 @@ def src(rel):
 def must(pattern, text, what, flags=re.S):
     m = re.search(pattern, text, flags)
     if not m:
+        # the same tokens laid out differently (line breaks, indentation, spaces around operators)
+        m = re.search(pattern.replace(" ", r"\s*"), text, flags)
+    if not m:
         raise TranslatorError(f"pattern for {what} not found")
     return m
 
 
 def rust_int(tok):
-    tok = tok.strip().replace("_", "")
+    tok = resolve(tok)
+    tok = re.sub(r"(?<=\d)_?(?:i32|u32|i64|u64|usize|u8|i8|u16|i16)$", "", tok.strip()).replace("_", "")
     if tok == "i32::MAX":
         return 2**31 - 1
     m = re.fullmatch(r"\(?\s*1\s*<<\s*(\d+)\s*\)?", tok)
@@ -58,7 +144,8 @@ def rust_int_expr(tok):
 
 def dec(tok):
     """Rust float literal -> Coq term building the *decimal* (neg, m, e)."""
-    tok = tok.strip().replace("_", "")
+    tok = resolve(tok)
+    tok = re.sub(r"(?<=[\d.])_?f(?:32|64)$", "", tok.strip()).replace("_", "")
     neg = tok.startswith("-")
     if neg:
         tok = tok[1:]
@@ -103,7 +190,9 @@ def from_str_table(text, ty, what):
 
 
 def gen():
-    L = []
+    del L[:]
+    del FAILED[:]
+    load_old_blocks()
     A = L.append
     A("(* GENERATED by translator/gen_constants.py from /repo/src -- do not edit. *)")
     A("From Coq Require Import ZArith String List.")
@@ -112,311 +201,352 @@ def gen():
     A("Local Open Scope string_scope.")
     A("")
 
-    # ---- util/parse_number.rs
-    t = src("util/parse_number.rs")
-    m = must(r"pub const MAX_PARSE_VALUE: i32 = ([^;]+);", t, "MAX_PARSE_VALUE")
-    A(f"Definition max_parse_value : Z := {rust_int(m.group(1))}.")
+    with blk("util_parse_number"):
+        # ---- util/parse_number.rs
+        t = src("util/parse_number.rs")
+        m = must(r"pub const MAX_PARSE_VALUE: i32 = ([^;]+);", t, "MAX_PARSE_VALUE")
+        A(f"Definition max_parse_value : Z := {rust_int(m.group(1))}.")
 
-    # ---- format_version.rs
-    t = src("format_version.rs")
-    m = must(r'const VERSION_PREFIX: &str = "([^"]*)";', t, "VERSION_PREFIX")
-    A(f"Definition version_prefix : string := {coq_str(m.group(1))}.")
-    m = must(r"pub const LATEST_FORMAT_VERSION: i32 = ([^;]+);", t, "LATEST_FORMAT_VERSION")
-    A(f"Definition latest_format_version : Z := {rust_int(m.group(1))}.")
+    with blk("format_version"):
+        # ---- format_version.rs
+        t = src("format_version.rs")
+        m = must(r'const VERSION_PREFIX: &str = "([^"]*)";', t, "VERSION_PREFIX")
+        A(f"Definition version_prefix : string := {coq_str(m.group(1))}.")
+        m = must(r"pub const LATEST_FORMAT_VERSION: i32 = ([^;]+);", t, "LATEST_FORMAT_VERSION")
+        A(f"Definition latest_format_version : Z := {rust_int(m.group(1))}.")
 
-    # ---- section/mod.rs
-    t = src("section/mod.rs")
-    variants = enum_variants(t, "Section")
-    m = must(r"let section = match section \{(.*?)_ => return None", t, "Section::try_from_line arms")
-    rows = []
-    for line in m.group(1).splitlines():
-        line = line.strip()
-        if not line:
-            continue
-        mm = re.fullmatch(r'"([^"]*)" => Self::(\w+),', line)
-        if not mm:
-            raise TranslatorError(f"Section arm {line!r}")
-        rows.append((mm.group(1), variants.index(mm.group(2))))
-    A("(* Section::try_from_line: header name -> index into the Section enum *)")
-    A("Definition section_variants : list string := [" + "; ".join(coq_str(v) for v in variants) + "].")
-    A("Definition section_table : list (string * Z) := [" + "; ".join(f"({coq_str(a)}, {b})" for a, b in rows) + "].")
-    must(r"line\.strip_prefix\('\['\)\?\.strip_suffix\('\]'\)\?", t, "Section bracket stripping")
+    with blk("mod"):
+        # ---- section/mod.rs
+        t = src("section/mod.rs")
+        variants = enum_variants(t, "Section")
+        m = must(r"let section = match section \{(.*?)_ => return None", t, "Section::try_from_line arms")
+        rows = []
+        for line in m.group(1).splitlines():
+            line = line.strip()
+            if not line:
+                continue
+            mm = re.fullmatch(r'"([^"]*)" => Self::(\w+),', line)
+            if not mm:
+                raise TranslatorError(f"Section arm {line!r}")
+            rows.append((mm.group(1), variants.index(mm.group(2))))
+        A("(* Section::try_from_line: header name -> index into the Section enum *)")
+        A("Definition section_variants : list string := [" + "; ".join(coq_str(v) for v in variants) + "].")
+        A("Definition section_table : list (string * Z) := [" + "; ".join(f"({coq_str(a)}, {b})" for a, b in rows) + "].")
+        must(r"line\.strip_prefix\('\['\)\?\.strip_suffix\('\]'\)\?", t, "Section bracket stripping")
 
-    # ---- key enums
-    for rel, name, coqname in [
-        ("section/general/decode.rs", "GeneralKey", "general_keys"),
-        ("section/editor.rs", "EditorKey", "editor_keys"),
-        ("section/metadata.rs", "MetadataKey", "metadata_keys"),
-        ("section/difficulty.rs", "DifficultyKey", "difficulty_keys"),
-    ]:
-        vs = enum_variants(src(rel), name)
-        A(f"Definition {coqname} : list string := [" + "; ".join(coq_str(v) for v in vs) + "].")
+    with blk("key_enums"):
+        # ---- key enums
+        for rel, name, coqname in [
+            ("section/general/decode.rs", "GeneralKey", "general_keys"),
+            ("section/editor.rs", "EditorKey", "editor_keys"),
+            ("section/metadata.rs", "MetadataKey", "metadata_keys"),
+            ("section/difficulty.rs", "DifficultyKey", "difficulty_keys"),
+        ]:
+            vs = enum_variants(src(rel), name)
+            A(f"Definition {coqname} : list string := [" + "; ".join(coq_str(v) for v in vs) + "].")
 
-    # ---- from_str tables
-    t = src("section/general/mod.rs")
-    gm = enum_variants(t, "GameMode")
-    rows = from_str_table(t, "GameMode", "GameMode::from_str")
-    A("Definition game_mode_table : list (string * Z) := [" + "; ".join(f"({coq_str(a)}, {gm.index(b)})" for a, b in rows) + "].")
-    cd = enum_variants(t, "CountdownType")
-    rows = from_str_table(t, "CountdownType", "CountdownType::from_str")
-    A("Definition countdown_table : list (string * Z) := [" + "; ".join(f"({coq_str(a)}, {cd.index(b)})" for a, b in rows) + "].")
+    with blk("general_mod"):
+        # ---- from_str tables
+        t = src("section/general/mod.rs")
+        gm = enum_variants(t, "GameMode")
+        rows = from_str_table(t, "GameMode", "GameMode::from_str")
+        A("Definition game_mode_table : list (string * Z) := [" + "; ".join(f"({coq_str(a)}, {gm.index(b)})" for a, b in rows) + "].")
+        cd = enum_variants(t, "CountdownType")
+        rows = from_str_table(t, "CountdownType", "CountdownType::from_str")
+        A("Definition countdown_table : list (string * Z) := [" + "; ".join(f"({coq_str(a)}, {cd.index(b)})" for a, b in rows) + "].")
 
-    t = src("section/events/mod.rs")
-    ev = enum_variants(t, "EventType")
-    rows = from_str_table(t, "EventType", "EventType::from_str")
-    A("Definition event_type_variants : list string := [" + "; ".join(coq_str(v) for v in ev) + "].")
-    A("Definition event_type_table : list (string * Z) := [" + "; ".join(f"({coq_str(a)}, {ev.index(b)})" for a, b in rows) + "].")
-    m = must(r"pub const MIN_BREAK_DURATION: f64 = ([^;]+);", t, "MIN_BREAK_DURATION")
-    A(f"Definition min_break_duration_dec : bool * Z * Z := {dec(m.group(1))}.")
+    with blk("events_mod"):
+        t = src("section/events/mod.rs")
+        ev = enum_variants(t, "EventType")
+        rows = from_str_table(t, "EventType", "EventType::from_str")
+        A("Definition event_type_variants : list string := [" + "; ".join(coq_str(v) for v in ev) + "].")
+        A("Definition event_type_table : list (string * Z) := [" + "; ".join(f"({coq_str(a)}, {ev.index(b)})" for a, b in rows) + "].")
+        m = must(r"pub const MIN_BREAK_DURATION: f64 = ([^;]+);", t, "MIN_BREAK_DURATION")
+        A(f"Definition min_break_duration_dec : bool * Z * Z := {dec(m.group(1))}.")
 
-    t = src("section/events/decode.rs")
-    m = must(r"const VIDEO_EXTENSIONS: &\[\[u8; 3\]\] = &\[(.*?)\];", t, "VIDEO_EXTENSIONS")
-    exts = re.findall(r'\*b"(\w{3})"', m.group(1))
-    if not exts:
-        raise TranslatorError("VIDEO_EXTENSIONS empty")
-    A("Definition video_extensions : list string := [" + "; ".join(coq_str(e) for e in exts) + "].")
+    with blk("events_decode"):
+        t = src("section/events/decode.rs")
+        m = must(r"const VIDEO_EXTENSIONS: &\[\[u8; 3\]\] = &\[(.*?)\];", t, "VIDEO_EXTENSIONS")
+        exts = re.findall(r'\*b"(\w{3})"', m.group(1))
+        if not exts:
+            raise TranslatorError("VIDEO_EXTENSIONS empty")
+        A("Definition video_extensions : list string := [" + "; ".join(coq_str(e) for e in exts) + "].")
 
-    t = src("section/hit_objects/hit_samples.rs")
-    sb = enum_variants(t, "SampleBank")
-    rows = from_str_table(t, "SampleBank", "SampleBank::from_str")
-    A("Definition sample_bank_variants : list string := [" + "; ".join(coq_str(v) for v in sb) + "].")
-    A("Definition sample_bank_table : list (string * Z) := [" + "; ".join(f"({coq_str(a)}, {sb.index(b)})" for a, b in rows) + "].")
-    m = must(r"impl TryFrom<i32> for SampleBank \{.*?match bank \{(.*?)_ =>", t, "SampleBank::try_from")
-    rows = []
-    for line in m.group(1).splitlines():
-        line = line.strip()
-        if not line:
-            continue
-        mm = re.fullmatch(r"(\d+) => Ok\(Self::(\w+)\),", line)
-        if not mm:
-            raise TranslatorError(f"SampleBank::try_from arm {line!r}")
-        rows.append((int(mm.group(1)), sb.index(mm.group(2))))
-    A("Definition sample_bank_of_int : list (Z * Z) := [" + "; ".join(f"({a}, {b})" for a, b in rows) + "].")
-    for nm in ["NONE", "NORMAL", "WHISTLE", "FINISH", "CLAP"]:
-        m = must(r"pub const " + nm + r": u8 = ([^;]+);", t, f"HitSoundType::{nm}")
-        A(f"Definition hitsound_{nm.lower()} : Z := {rust_int(m.group(1))}.")
+    with blk("hit_objects_hit_samples"):
+        t = src("section/hit_objects/hit_samples.rs")
+        sb = enum_variants(t, "SampleBank")
+        rows = from_str_table(t, "SampleBank", "SampleBank::from_str")
+        A("Definition sample_bank_variants : list string := [" + "; ".join(coq_str(v) for v in sb) + "].")
+        A("Definition sample_bank_table : list (string * Z) := [" + "; ".join(f"({coq_str(a)}, {sb.index(b)})" for a, b in rows) + "].")
+        m = must(r"impl TryFrom<i32> for SampleBank \{.*?match bank \{(.*?)_ =>", t, "SampleBank::try_from")
+        rows = []
+        for line in m.group(1).splitlines():
+            line = line.strip()
+            if not line:
+                continue
+            mm = re.fullmatch(r"(\d+) => Ok\(Self::(\w+)\),", line)
+            if not mm:
+                raise TranslatorError(f"SampleBank::try_from arm {line!r}")
+            rows.append((int(mm.group(1)), sb.index(mm.group(2))))
+        A("Definition sample_bank_of_int : list (Z * Z) := [" + "; ".join(f"({a}, {b})" for a, b in rows) + "].")
+        for nm in ["NONE", "NORMAL", "WHISTLE", "FINISH", "CLAP"]:
+            m = must(r"pub const " + nm + r": u8 = ([^;]+);", t, f"HitSoundType::{nm}")
+            A(f"Definition hitsound_{nm.lower()} : Z := {rust_int(m.group(1))}.")
 
-    t = src("section/hit_objects/mod.rs")
-    for nm in ["CIRCLE", "SLIDER", "NEW_COMBO", "SPINNER", "COMBO_OFFSET", "HOLD"]:
-        m = must(r"pub const " + nm + r": i32 = ([^;]+);", t, f"HitObjectType::{nm}")
-        A(f"Definition hot_{nm.lower()} : Z := {rust_int_expr(m.group(1))}.")
-    m = must(r"pub\(crate\) const BASE_SCORING_DIST: f32 = ([^;]+);", t, "BASE_SCORING_DIST")
-    A(f"Definition base_scoring_dist_dec : bool * Z * Z := {dec(m.group(1))}.")
+    with blk("hit_objects_mod"):
+        t = src("section/hit_objects/mod.rs")
+        for nm in ["CIRCLE", "SLIDER", "NEW_COMBO", "SPINNER", "COMBO_OFFSET", "HOLD"]:
+            m = must(r"pub const " + nm + r": i32 = ([^;]+);", t, f"HitObjectType::{nm}")
+            A(f"Definition hot_{nm.lower()} : Z := {rust_int_expr(m.group(1))}.")
+        m = must(r"pub\(crate\) const BASE_SCORING_DIST: f32 = ([^;]+);", t, "BASE_SCORING_DIST")
+        A(f"Definition base_scoring_dist_dec : bool * Z * Z := {dec(m.group(1))}.")
 
-    t = src("section/timing_points/effect_flags.rs")
-    for nm in ["NONE", "KIAI", "OMIT_FIRST_BAR_LINE"]:
-        m = must(r"pub const " + nm + r": i32 = ([^;]+);", t, f"EffectFlags::{nm}")
-        A(f"Definition effect_{nm.lower()} : Z := {rust_int(m.group(1))}.")
+    with blk("timing_points_effect_flags"):
+        t = src("section/timing_points/effect_flags.rs")
+        for nm in ["NONE", "KIAI", "OMIT_FIRST_BAR_LINE"]:
+            m = must(r"pub const " + nm + r": i32 = ([^;]+);", t, f"EffectFlags::{nm}")
+            A(f"Definition effect_{nm.lower()} : Z := {rust_int(m.group(1))}.")
 
-    t = src("section/hit_objects/decode.rs")
-    m = must(r"const MAX_COORDINATE_VALUE: i32 = ([^;]+);", t, "MAX_COORDINATE_VALUE")
-    A(f"Definition max_coordinate_value : Z := {rust_int(m.group(1))}.")
-    m = must(r"if repeat_count > (\d+) \{", t, "repeat cap")
-    A(f"Definition repeat_cap : Z := {rust_int(m.group(1))}.")
-    m = must(r"const CONTROL_POINT_LENIENCY: f64 = ([^;]+);", t, "CONTROL_POINT_LENIENCY")
-    A(f"Definition control_point_leniency_dec : bool * Z * Z := {dec(m.group(1))}.")
-    m = must(r"GameMode::Osu \| GameMode::Catch => \{\s*\(-slider_velocity_as_beat_len\)\.clamp\(([^,]+), ([^)]+)\) / ([^\s]+)\s*\}", t, "bpm clamp osu/catch")
-    A(f"Definition bpm_clamp_std : (bool*Z*Z) * (bool*Z*Z) * (bool*Z*Z) := ({dec(m.group(1))}, {dec(m.group(2))}, {dec(m.group(3))}).")
-    m = must(r"GameMode::Taiko \| GameMode::Mania => \{\s*\(-slider_velocity_as_beat_len\)\.clamp\(([^,]+), ([^)]+)\) / ([^\s]+)\s*\}", t, "bpm clamp taiko/mania")
-    A(f"Definition bpm_clamp_tm : (bool*Z*Z) * (bool*Z*Z) * (bool*Z*Z) := ({dec(m.group(1))}, {dec(m.group(2))}, {dec(m.group(3))}).")
-    m = must(r"Pos::new\(([\d.]+) / ([\d.]+), ([\d.]+) / ([\d.]+)\)", t, "spinner centre")
-    A(f"Definition spinner_pos_dec : (bool*Z*Z) * (bool*Z*Z) * (bool*Z*Z) * (bool*Z*Z) := ({dec(m.group(1))}, {dec(m.group(2))}, {dec(m.group(3))}, {dec(m.group(4))}).")
+    with blk("hit_objects_decode"):
+        t = src("section/hit_objects/decode.rs")
+        m = must(r"const MAX_COORDINATE_VALUE: i32 = ([^;]+);", t, "MAX_COORDINATE_VALUE")
+        A(f"Definition max_coordinate_value : Z := {rust_int(m.group(1))}.")
+        m = must(r"if repeat_count > (\d+) \{", t, "repeat cap")
+        A(f"Definition repeat_cap : Z := {rust_int(m.group(1))}.")
+        m = must(r"const CONTROL_POINT_LENIENCY: f64 = ([^;]+);", t, "CONTROL_POINT_LENIENCY")
+        A(f"Definition control_point_leniency_dec : bool * Z * Z := {dec(m.group(1))}.")
+        m = must(r"GameMode::Osu \| GameMode::Catch => \{\s*\(-slider_velocity_as_beat_len\)\.clamp\(([^,]+), ([^)]+)\) / ([^\s]+)\s*\}", t, "bpm clamp osu/catch")
+        A(f"Definition bpm_clamp_std : (bool*Z*Z) * (bool*Z*Z) * (bool*Z*Z) := ({dec(m.group(1))}, {dec(m.group(2))}, {dec(m.group(3))}).")
+        m = must(r"GameMode::Taiko \| GameMode::Mania => \{\s*\(-slider_velocity_as_beat_len\)\.clamp\(([^,]+), ([^)]+)\) / ([^\s]+)\s*\}", t, "bpm clamp taiko/mania")
+        A(f"Definition bpm_clamp_tm : (bool*Z*Z) * (bool*Z*Z) * (bool*Z*Z) := ({dec(m.group(1))}, {dec(m.group(2))}, {dec(m.group(3))}).")
+        m = must(r"Pos::new\(([\d.]+) / ([\d.]+), ([\d.]+) / ([\d.]+)\)", t, "spinner centre")
+        A(f"Definition spinner_pos_dec : (bool*Z*Z) * (bool*Z*Z) * (bool*Z*Z) * (bool*Z*Z) := ({dec(m.group(1))}, {dec(m.group(2))}, {dec(m.group(3))}, {dec(m.group(4))}).")
 
-    t = src("section/difficulty.rs")
-    m = must(r"slider_multiplier = f64::parse\(value\)\?\.clamp\(([^,]+), ([^)]+)\);", t, "slider multiplier clamp")
-    A(f"Definition slider_mult_clamp : (bool*Z*Z) * (bool*Z*Z) := ({dec(m.group(1))}, {dec(m.group(2))}).")
-    m = must(r"slider_tick_rate = f64::parse\(value\)\?\.clamp\(([^,]+), ([^)]+)\);", t, "tick rate clamp")
-    A(f"Definition tick_rate_clamp : (bool*Z*Z) * (bool*Z*Z) := ({dec(m.group(1))}, {dec(m.group(2))}).")
-    m = must(r"impl Default for Difficulty \{.*?Self \{(.*?)\}", t, "Difficulty::default")
-    dd = dict(re.findall(r"(\w+): ([\d.]+),", m.group(1)))
-    for k in ["hp_drain_rate", "circle_size", "overall_difficulty", "approach_rate", "slider_multiplier", "slider_tick_rate"]:
-        if k not in dd:
-            raise TranslatorError(f"Difficulty default {k}")
-        A(f"Definition default_{k}_dec : bool * Z * Z := {dec(dd[k])}.")
+    with blk("difficulty"):
+        t = src("section/difficulty.rs")
+        m = must(r"slider_multiplier = f64::parse\(value\)\?\.clamp\(([^,]+), ([^)]+)\);", t, "slider multiplier clamp")
+        A(f"Definition slider_mult_clamp : (bool*Z*Z) * (bool*Z*Z) := ({dec(m.group(1))}, {dec(m.group(2))}).")
+        m = must(r"slider_tick_rate = f64::parse\(value\)\?\.clamp\(([^,]+), ([^)]+)\);", t, "tick rate clamp")
+        A(f"Definition tick_rate_clamp : (bool*Z*Z) * (bool*Z*Z) := ({dec(m.group(1))}, {dec(m.group(2))}).")
+        m = must(r"impl Default for Difficulty \{.*?Self \{(.*?)\}", t, "Difficulty::default")
+        dd = dict(re.findall(r"(\w+): ([\d.]+),", m.group(1)))
+        for k in ["hp_drain_rate", "circle_size", "overall_difficulty", "approach_rate", "slider_multiplier", "slider_tick_rate"]:
+            if k not in dd:
+                raise TranslatorError(f"Difficulty default {k}")
+            A(f"Definition default_{k}_dec : bool * Z * Z := {dec(dd[k])}.")
 
-    t = src("section/general/decode.rs")
-    m = must(r"impl Default for General \{.*?Self \{(.*?)\n        \}", t, "General::default")
-    body = m.group(1)
-    mm = must(r"preview_time: (-?\d+),", body, "General default preview_time")
-    A(f"Definition default_preview_time : Z := {int(mm.group(1))}.")
-    mm = must(r"default_sample_volume: (-?\d+),", body, "General default sample volume")
-    A(f"Definition default_sample_volume : Z := {int(mm.group(1))}.")
-    mm = must(r"stack_leniency: ([\d.]+),", body, "General default stack leniency")
-    A(f"Definition default_stack_leniency_dec : bool * Z * Z := {dec(mm.group(1))}.")
-    mm = must(r"countdown: CountdownType::(\w+),", body, "General default countdown")
-    A(f"Definition default_countdown : Z := {cd.index(mm.group(1))}.")
+    with blk("general_decode"):
+        t = src("section/general/decode.rs")
+        m = must(r"impl Default for General \{.*?Self \{(.*?)\n        \}", t, "General::default")
+        body = m.group(1)
+        mm = must(r"preview_time: (-?\d+),", body, "General default preview_time")
+        A(f"Definition default_preview_time : Z := {int(mm.group(1))}.")
+        mm = must(r"default_sample_volume: (-?\d+),", body, "General default sample volume")
+        A(f"Definition default_sample_volume : Z := {int(mm.group(1))}.")
+        mm = must(r"stack_leniency: ([\d.]+),", body, "General default stack leniency")
+        A(f"Definition default_stack_leniency_dec : bool * Z * Z := {dec(mm.group(1))}.")
+        mm = must(r"countdown: CountdownType::(\w+),", body, "General default countdown")
+        A(f"Definition default_countdown : Z := {cd.index(mm.group(1))}.")
 
-    t = src("section/editor.rs")
-    m = must(r"impl Default for Editor \{.*?Self \{(.*?)\n        \}", t, "Editor::default")
-    body = m.group(1)
-    mm = must(r"distance_spacing: ([\d.]+),", body, "Editor default distance_spacing")
-    A(f"Definition default_distance_spacing_dec : bool * Z * Z := {dec(mm.group(1))}.")
-    mm = must(r"beat_divisor: (-?\d+),", body, "Editor default beat_divisor")
-    A(f"Definition default_beat_divisor : Z := {int(mm.group(1))}.")
-    mm = must(r"timeline_zoom: ([\d.]+),", body, "Editor default timeline_zoom")
-    A(f"Definition default_timeline_zoom_dec : bool * Z * Z := {dec(mm.group(1))}.")
+    with blk("editor"):
+        t = src("section/editor.rs")
+        m = must(r"impl Default for Editor \{.*?Self \{(.*?)\n        \}", t, "Editor::default")
+        body = m.group(1)
+        mm = must(r"distance_spacing: ([\d.]+),", body, "Editor default distance_spacing")
+        A(f"Definition default_distance_spacing_dec : bool * Z * Z := {dec(mm.group(1))}.")
+        mm = must(r"beat_divisor: (-?\d+),", body, "Editor default beat_divisor")
+        A(f"Definition default_beat_divisor : Z := {int(mm.group(1))}.")
+        mm = must(r"timeline_zoom: ([\d.]+),", body, "Editor default timeline_zoom")
+        A(f"Definition default_timeline_zoom_dec : bool * Z * Z := {dec(mm.group(1))}.")
 
-    t = src("section/metadata.rs")
-    m = must(r"impl Default for Metadata \{.*?Self \{(.*?)\n        \}", t, "Metadata::default")
-    mm = must(r"beatmap_id: (-?\d+),", m.group(1), "Metadata default beatmap_id")
-    A(f"Definition default_beatmap_id : Z := {int(mm.group(1))}.")
+    with blk("metadata"):
+        t = src("section/metadata.rs")
+        m = must(r"impl Default for Metadata \{.*?Self \{(.*?)\n        \}", t, "Metadata::default")
+        mm = must(r"beatmap_id: (-?\d+),", m.group(1), "Metadata default beatmap_id")
+        A(f"Definition default_beatmap_id : Z := {int(mm.group(1))}.")
 
-    # ---- control points
-    t = src("section/timing_points/control_points/timing.rs")
-    m = must(r"beat_len: beat_len\.clamp\(([^,]+), ([^)]+)\),", t, "beat_len clamp")
-    A(f"Definition beat_len_clamp : (bool*Z*Z) * (bool*Z*Z) := ({dec(m.group(1))}, {dec(m.group(2))}).")
-    m = must(r"pub const DEFAULT_BEAT_LEN: f64 = ([\d_.]+) / ([\d_.]+);", t, "DEFAULT_BEAT_LEN")
-    A(f"Definition default_beat_len_dec : (bool*Z*Z) * (bool*Z*Z) := ({dec(m.group(1))}, {dec(m.group(2))}).")
-    t = src("section/timing_points/control_points/difficulty.rs")
-    m = must(r"slider_velocity: speed_multiplier\.clamp\(([^,]+), ([^)]+)\),", t, "slider velocity clamp")
-    A(f"Definition slider_velocity_clamp : (bool*Z*Z) * (bool*Z*Z) := ({dec(m.group(1))}, {dec(m.group(2))}).")
-    t = src("section/timing_points/control_points/sample.rs")
-    m = must(r"sample_volume: sample_volume\.clamp\((\d+), (\d+)\),", t, "sample volume clamp")
-    A(f"Definition sample_volume_clamp : Z * Z := ({int(m.group(1))}, {int(m.group(2))}).")
-    t = src("section/timing_points/decode.rs")
-    m = must(r"effect\.scroll_speed = speed_multiplier\.clamp\(([^,]+), ([^)]+)\);", t, "scroll speed clamp")
-    A(f"Definition scroll_speed_clamp : (bool*Z*Z) * (bool*Z*Z) := ({dec(m.group(1))}, {dec(m.group(2))}).")
-    must(r"matches!\(state\.general\.mode, GameMode::Taiko \| GameMode::Mania\)", t, "scroll speed mode guard")
-    # ---- [TimingPoints] line grammar (C12)
-    m = must(r"matches!\(state\.general\.mode, ((?:GameMode::\w+(?: \| )?)+)\) \{\s*effect\.scroll_speed =", t, "scroll speed modes")
-    gm = enum_variants(src("section/general/mod.rs"), "GameMode")
-    A("Definition tp_scroll_modes : list Z := [" + "; ".join(str(gm.index(v)) for v in re.findall(r"GameMode::(\w+)", m.group(1))) + "].")
-    m = must(r"let speed_multiplier = if beat_len < 0\.0 \{\s*([\d_.]+) / -beat_len\s*\} else \{\s*1\.0\s*\};", t, "speed multiplier")
-    A(f"Definition tp_speed_num_dec : bool * Z * Z := {dec(m.group(1))}.")
-    must(r"pending_control_points_time: 0\.0,", t, "initial pending time 0.0")
-    must(r"if \(time - self\.pending_control_points_time\)\.abs\(\) >= f64::EPSILON \{", t, "flush condition")
-    m = must(r"if !matches!\(next\.chars\(\)\.next\(\), Some\('(.)'\)\) \{\s*time_signature =", t, "time signature skip prefix")
-    A(f"Definition tp_sig_skip_char : Z := {ord(m.group(1))}.")
-    m = must(r"let timing_change = split\s*\.next\(\)\s*\.map_or\(true, \|next\| matches!\(next\.chars\(\)\.next\(\), Some\('(.)'\)\)\);", t, "timing_change prefix")
-    A(f"Definition tp_timing_change_char : Z := {ord(m.group(1))}.")
-    m = must(r"let custom_sample_bank = split\.next\(\)\.map\(i32::parse\)\.transpose\(\)\?\.unwrap_or\((-?\d+)\);", t, "default custom sample bank")
-    A(f"Definition tp_default_custom_bank : Z := {int(m.group(1))}.")
-    must(r"if sample_set == SampleBank::None \{\s*sample_set = SampleBank::Normal;", t, "bank None -> Normal")
-    t2 = src("section/timing_points/control_points/timing.rs")
-    m = must(r"pub const fn new_simple_quadruple\(\) -> Self \{[^}]*?NonZeroU32::new_unchecked\((\d+)\)", t2, "TimeSignature::new_simple_quadruple")
-    A(f"Definition tp_default_signature : Z := {int(m.group(1))}.")
+    with blk("timing_points_control_points_timing"):
+        # ---- control points
+        t = src("section/timing_points/control_points/timing.rs")
+        m = must(r"beat_len: beat_len\.clamp\(([^,]+), ([^)]+)\),", t, "beat_len clamp")
+        A(f"Definition beat_len_clamp : (bool*Z*Z) * (bool*Z*Z) := ({dec(m.group(1))}, {dec(m.group(2))}).")
+        m = must(r"pub const DEFAULT_BEAT_LEN: f64 = ([\d_.]+) / ([\d_.]+);", t, "DEFAULT_BEAT_LEN")
+        A(f"Definition default_beat_len_dec : (bool*Z*Z) * (bool*Z*Z) := ({dec(m.group(1))}, {dec(m.group(2))}).")
 
-    # ---- curves
-    t = src("section/hit_objects/slider/curve.rs")
-    m = must(r"const BEZIER_TOLERANCE: f32 = ([^;]+);", t, "BEZIER_TOLERANCE")
-    A(f"Definition bezier_tolerance_dec : bool * Z * Z := {dec(m.group(1))}.")
-    m = must(r"const CATMULL_DETAIL: usize = ([^;]+);", t, "CATMULL_DETAIL")
-    A(f"Definition catmull_detail : Z := {rust_int(m.group(1))}.")
-    m = must(r"const CIRCULAR_ARC_TOLERANCE: f32 = ([^;]+);", t, "CIRCULAR_ARC_TOLERANCE")
-    A(f"Definition circular_arc_tolerance_dec : bool * Z * Z := {dec(m.group(1))}.")
-    m = must(r"if sub_points >= (\d+) \{", t, "arc sub-point cap")
-    A(f"Definition arc_subpoint_cap : Z := {int(m.group(1))}.")
-    m = must(r"if dist_from_start > ([\d.]+)", t, "catmull simplification distance")
-    A(f"Definition catmull_simplify_dist_dec : bool * Z * Z := {dec(m.group(1))}.")
-    # calculate_length: a requested length is dropped only when it does not differ from the
-    # calculated one (exact comparison; the model's keeps_natural mirrors this text)
-    m = must(r"if let Some\(expected_len\) =\s*expected_len\.filter\(\|&len\| \(calculated_len - len\)\.abs\(\) (\S+) ([^)\s]+)\)\s*\{",
-             t, "calculate_length filter on the requested length")
-    if (m.group(1), m.group(2)) != (">", "0.0"):
-        raise TranslatorError("calculate_length filter is not `(calculated_len - len).abs() > 0.0` "
-                              f"(found `{m.group(1)} {m.group(2)}`): the curve model (Model/Curve.v, calculate_length) "
-                              "compares exactly")
+    with blk("timing_points_control_points_difficulty"):
+        t = src("section/timing_points/control_points/difficulty.rs")
+        m = must(r"slider_velocity: speed_multiplier\.clamp\(([^,]+), ([^)]+)\),", t, "slider velocity clamp")
+        A(f"Definition slider_velocity_clamp : (bool*Z*Z) * (bool*Z*Z) := ({dec(m.group(1))}, {dec(m.group(2))}).")
 
-    # ---- slider events
-    t = src("section/hit_objects/slider/event.rs")
-    m = must(r"const MAX_LEN: f64 = ([^;]+);", t, "MAX_LEN")
-    A(f"Definition slider_max_len_dec : bool * Z * Z := {dec(m.group(1))}.")
-    m = must(r"const TAIL_LENIENCY: f64 = ([^;]+);", t, "TAIL_LENIENCY")
-    A(f"Definition tail_leniency_dec : bool * Z * Z := {dec(m.group(1))}.")
-    m = must(r"min_dist_from_end: velocity \* ([\d.]+),", t, "min_dist_from_end factor")
-    A(f"Definition min_dist_from_end_factor_dec : bool * Z * Z := {dec(m.group(1))}.")
+    with blk("timing_points_control_points_sample"):
+        t = src("section/timing_points/control_points/sample.rs")
+        m = must(r"sample_volume: sample_volume\.clamp\((\d+), (\d+)\),", t, "sample volume clamp")
+        A(f"Definition sample_volume_clamp : Z * Z := ({int(m.group(1))}, {int(m.group(2))}).")
 
-    # ---- slider path type letters (PathType::new_from_str), for C14
-    t = src("section/hit_objects/slider/path_type.rs")
-    m = must(r"pub fn new_from_str\(input: &str\) -> Self \{(.*?)\n    \}", t, "PathType::new_from_str")
-    body = m.group(1)
-    mm = must(r"Some\('(.)'\) => \{.*?return Self::new_b_spline\(degree\);.*?Self::BEZIER\s*\}", body, "PathType letter for b-spline")
-    A(f"Definition path_letter_bspline : Z := {ord(mm.group(1))}.")
-    mm = must(r"Some\('(.)'\) => Self::LINEAR,", body, "PathType letter for linear")
-    A(f"Definition path_letter_linear : Z := {ord(mm.group(1))}.")
-    mm = must(r"Some\('(.)'\) => Self::PERFECT_CURVE,", body, "PathType letter for perfect curve")
-    A(f"Definition path_letter_perfect : Z := {ord(mm.group(1))}.")
-    must(r"_ => Self::CATMULL,", body, "PathType default catmull")
+    with blk("timing_points_decode"):
+        t = src("section/timing_points/decode.rs")
+        m = must(r"effect\.scroll_speed = speed_multiplier\.clamp\(([^,]+), ([^)]+)\);", t, "scroll speed clamp")
+        A(f"Definition scroll_speed_clamp : (bool*Z*Z) * (bool*Z*Z) := ({dec(m.group(1))}, {dec(m.group(2))}).")
+        must(r"matches!\(state\.general\.mode, GameMode::Taiko \| GameMode::Mania\)", t, "scroll speed mode guard")
 
-    # ---- reader
-    t = src("reader/encoding.rs")
-    m = must(r"pub const fn from_bom\(bom: &\[u8\]\) -> \(Self, usize\) \{\s*match bom \{(.*?)\n        \}", t, "Encoding::from_bom")
-    encs = enum_variants(t, "Encoding")
-    rows = []
-    for line in m.group(1).splitlines():
-        line = line.strip()
-        if not line:
-            continue
-        mm = re.fullmatch(r"\[((?:0x[0-9A-Fa-f]{2}, )+)\.\.\] => \(Self::(\w+), (\d+)\),", line)
-        if mm:
-            bs = [int(x, 16) for x in re.findall(r"0x[0-9A-Fa-f]{2}", mm.group(1))]
-            rows.append((bs, encs.index(mm.group(2)), int(mm.group(3))))
-            continue
-        mm = re.fullmatch(r"_ => \(Self::(\w+), (\d+)\),", line)
-        if mm:
-            rows.append(([], encs.index(mm.group(1)), int(mm.group(2))))
-            continue
-        raise TranslatorError(f"from_bom arm {line!r}")
-    A("(* Encoding::from_bom: (prefix bytes, encoding index, bytes consumed), first match wins *)")
-    A("Definition encoding_variants : list string := [" + "; ".join(coq_str(v) for v in encs) + "].")
-    A("Definition bom_table : list (list Z * Z * Z) := [" + "; ".join("([" + "; ".join(map(str, b)) + f"], {e}, {n})" for b, e, n in rows) + "].")
-    t = src("reader/decoder.rs")
-    # read_bom: the repaired shape collects up to N bytes over several chunks
-    # (`while head.len() < N`); the shape before the repair of D4 looked at one
-    # chunk and dropped chunks shorter than N (`if len >= N || len == 0`).
-    m = re.search(r"while head\.len\(\) < (\d+) \{", t)
-    if m:
-        n = int(m.group(1))
-        m2 = must(r"let len = available\.len\(\)\.min\((\d+) - head\.len\(\)\);", t, "read_bom bytes taken per chunk")
-        m3 = must(r"let mut head = Vec::with_capacity\((\d+)\);", t, "read_bom head buffer")
-        if int(m2.group(1)) != n or int(m3.group(1)) != n:
-            raise TranslatorError("read_bom: the three occurrences of the BOM length disagree")
-        must(r"inner: Cursor::new\(head\)\.chain\(inner\),", t, "Decoder::new chains the collected head before the reader")
-        A("(* read_bom collects up to this many bytes (over several chunks) before from_bom *)")
-        A(f"Definition read_bom_min_len : Z := {n}.")
-        A("Definition read_bom_accumulates : bool := true.")
-    else:
-        m = must(r"if len >= (\d+) \|\| len == 0 \{", t, "read_bom minimum chunk")
-        A(f"Definition read_bom_min_len : Z := {int(m.group(1))}.")
-        A("Definition read_bom_accumulates : bool := false.")
-    # read_line: since the repair of D5 a byte 0x0A ends a UTF-16 line only as a code unit of its
-    # own (the loop around read_until); before, the first byte 0x0A ended the line.
-    if re.search(r"while self\.inner\.read_until\(b'\\n', &mut self\.read_buf\)\? > 0\s*&& self\.read_buf\.ends_with\(b\"\\n\"\)\s*\{", t):
-        must(r"Encoding::Utf8 => break,", t, "read_line: UTF-8 arm")
-        must(r"Encoding::Utf16BE => \{\s*if len % 2 == 0 && self\.read_buf\[len - 2\] == 0 \{\s*break;", t, "read_line: UTF-16BE arm")
-        must(r"Encoding::Utf16LE if len % 2 == 0 => \{\}", t, "read_line: UTF-16LE arm, 0x0A as high byte")
-        must(r"if matches!\(high, Some\(0\) \| None\) \{\s*break;", t, "read_line: UTF-16LE arm, high byte test")
-        must(r"if self\.read_buf\.is_empty\(\) \{\s*return Ok\(None\);", t, "read_line: end of stream")
-        A("(* Decoder::read_line ends a UTF-16 line at a code unit 0x000A only *)")
-        A("Definition read_line_unit_aligned : bool := true.")
-    else:
-        must(r"if self\.inner\.read_until\(b'\\n', &mut self\.read_buf\)\? == 0 \{", t, "read_line (shape before the repair of D5)")
-        A("Definition read_line_unit_aligned : bool := false.")
+    with blk("timing_points_grammar"):
+        # ---- [TimingPoints] line grammar (C12)
+        t = src("section/timing_points/decode.rs")
+        m = must(r"matches!\(state\.general\.mode, ((?:GameMode::\w+(?: \| )?)+)\) \{\s*effect\.scroll_speed =", t, "scroll speed modes")
+        gm = enum_variants(src("section/general/mod.rs"), "GameMode")
+        A("Definition tp_scroll_modes : list Z := [" + "; ".join(str(gm.index(v)) for v in re.findall(r"GameMode::(\w+)", m.group(1))) + "].")
+        m = must(r"let speed_multiplier = if beat_len < 0\.0 \{\s*([\d_.]+) / -beat_len\s*\} else \{\s*1\.0\s*\};", t, "speed multiplier")
+        A(f"Definition tp_speed_num_dec : bool * Z * Z := {dec(m.group(1))}.")
+        must(r"pending_control_points_time: 0\.0,", t, "initial pending time 0.0")
+        must(r"if \(time - self\.pending_control_points_time\)\.abs\(\) >= f64::EPSILON \{", t, "flush condition")
+        m = must(r"if !matches!\(next\.chars\(\)\.next\(\), Some\('(.)'\)\) \{\s*time_signature =", t, "time signature skip prefix")
+        A(f"Definition tp_sig_skip_char : Z := {ord(m.group(1))}.")
+        m = must(r"let timing_change = split\s*\.next\(\)\s*\.map_or\(true, \|next\| matches!\(next\.chars\(\)\.next\(\), Some\('(.)'\)\)\);", t, "timing_change prefix")
+        A(f"Definition tp_timing_change_char : Z := {ord(m.group(1))}.")
+        m = must(r"let custom_sample_bank = split\.next\(\)\.map\(i32::parse\)\.transpose\(\)\?\.unwrap_or\((-?\d+)\);", t, "default custom sample bank")
+        A(f"Definition tp_default_custom_bank : Z := {int(m.group(1))}.")
+        must(r"if sample_set == SampleBank::None \{\s*sample_set = SampleBank::Normal;", t, "bank None -> Normal")
+        t2 = src("section/timing_points/control_points/timing.rs")
+        m = must(r"pub const fn new_simple_quadruple\(\) -> Self \{[^}]*?NonZeroU32::new_unchecked\((\d+)\)", t2, "TimeSignature::new_simple_quadruple")
+        A(f"Definition tp_default_signature : Z := {int(m.group(1))}.")
 
-    # ---- C11 additions: colours, flag value, positions the section parsers hard-wire
-    t = src("section/colors/decode.rs")
-    m = must(r'if s\.starts_with\("([^"]*)"\) \{\s*Ok\(Self::Combo\)', t, "ColorsKey combo prefix")
-    A(f"Definition colors_combo_prefix : string := {coq_str(m.group(1))}.")
-    t = src("section/colors/mod.rs")
-    m = must(r"Ok\(Self::new\(r\.parse\(\)\?, g\.parse\(\)\?, b\.parse\(\)\?, (\d+)\)\)", t, "Color::from_str alpha")
-    A(f"Definition color_default_alpha : Z := {int(m.group(1))}.")
-    t = src("section/general/decode.rs")
-    flags = re.findall(r"state\.(\w+) = i32::parse\(value\)\? == (\d+);?", t)
-    if len(flags) != 5 or len({v for _, v in flags}) != 1:
-        raise TranslatorError(f"General flag conversions not recognised: {flags!r}")
-    A(f"Definition flag_true_value : Z := {int(flags[0][1])}.")
-    A("Definition general_flag_fields : list string := [" + "; ".join(coq_str(f) for f, _ in flags) + "].")
+    with blk("hit_objects_slider_curve"):
+        # ---- curves
+        t = src("section/hit_objects/slider/curve.rs")
+        m = must(r"const BEZIER_TOLERANCE: f32 = ([^;]+);", t, "BEZIER_TOLERANCE")
+        A(f"Definition bezier_tolerance_dec : bool * Z * Z := {dec(m.group(1))}.")
+        m = must(r"const CATMULL_DETAIL: usize = ([^;]+);", t, "CATMULL_DETAIL")
+        A(f"Definition catmull_detail : Z := {rust_int(m.group(1))}.")
+        m = must(r"const CIRCULAR_ARC_TOLERANCE: f32 = ([^;]+);", t, "CIRCULAR_ARC_TOLERANCE")
+        A(f"Definition circular_arc_tolerance_dec : bool * Z * Z := {dec(m.group(1))}.")
+        m = must(r"if sub_points >= (\d+) \{", t, "arc sub-point cap")
+        A(f"Definition arc_subpoint_cap : Z := {int(m.group(1))}.")
+        m = must(r"if dist_from_start > ([\d.]+)", t, "catmull simplification distance")
+        A(f"Definition catmull_simplify_dist_dec : bool * Z * Z := {dec(m.group(1))}.")
+        # calculate_length: a requested length is dropped only when it does not differ from the
+        # calculated one (exact comparison; the model's keeps_natural mirrors this text)
+        m = must(r"if let Some\(expected_len\) =\s*expected_len\.filter\(\|&len\| \(calculated_len - len\)\.abs\(\) (\S+) ([^)\s]+)\)\s*\{",
+                 t, "calculate_length filter on the requested length")
+        if (m.group(1), m.group(2)) != (">", "0.0"):
+            raise TranslatorError("calculate_length filter is not `(calculated_len - len).abs() > 0.0` "
+                                  f"(found `{m.group(1)} {m.group(2)}`): the curve model (Model/Curve.v, calculate_length) "
+                                  "compares exactly")
+
+    with blk("hit_objects_slider_event"):
+        # ---- slider events
+        t = src("section/hit_objects/slider/event.rs")
+        m = must(r"const MAX_LEN: f64 = ([^;]+);", t, "MAX_LEN")
+        A(f"Definition slider_max_len_dec : bool * Z * Z := {dec(m.group(1))}.")
+        m = must(r"const TAIL_LENIENCY: f64 = ([^;]+);", t, "TAIL_LENIENCY")
+        A(f"Definition tail_leniency_dec : bool * Z * Z := {dec(m.group(1))}.")
+        m = must(r"min_dist_from_end: velocity \* ([\d.]+),", t, "min_dist_from_end factor")
+        A(f"Definition min_dist_from_end_factor_dec : bool * Z * Z := {dec(m.group(1))}.")
+
+    with blk("hit_objects_slider_path_type"):
+        # ---- slider path type letters (PathType::new_from_str), for C14
+        t = src("section/hit_objects/slider/path_type.rs")
+        m = must(r"pub fn new_from_str\(input: &str\) -> Self \{(.*?)\n    \}", t, "PathType::new_from_str")
+        body = m.group(1)
+        mm = must(r"Some\('(.)'\) => \{.*?return Self::new_b_spline\(degree\);.*?Self::BEZIER\s*\}", body, "PathType letter for b-spline")
+        A(f"Definition path_letter_bspline : Z := {ord(mm.group(1))}.")
+        mm = must(r"Some\('(.)'\) => Self::LINEAR,", body, "PathType letter for linear")
+        A(f"Definition path_letter_linear : Z := {ord(mm.group(1))}.")
+        mm = must(r"Some\('(.)'\) => Self::PERFECT_CURVE,", body, "PathType letter for perfect curve")
+        A(f"Definition path_letter_perfect : Z := {ord(mm.group(1))}.")
+        must(r"_ => Self::CATMULL,", body, "PathType default catmull")
+
+    with blk("reader_encoding"):
+        # ---- reader
+        t = src("reader/encoding.rs")
+        m = must(r"pub const fn from_bom\(bom: &\[u8\]\) -> \(Self, usize\) \{\s*match bom \{(.*?)\n        \}", t, "Encoding::from_bom")
+        encs = enum_variants(t, "Encoding")
+        rows = []
+        for line in m.group(1).splitlines():
+            line = line.strip()
+            if not line:
+                continue
+            mm = re.fullmatch(r"\[((?:0x[0-9A-Fa-f]{2}, )+)\.\.\] => \(Self::(\w+), (\d+)\),", line)
+            if mm:
+                bs = [int(x, 16) for x in re.findall(r"0x[0-9A-Fa-f]{2}", mm.group(1))]
+                rows.append((bs, encs.index(mm.group(2)), int(mm.group(3))))
+                continue
+            mm = re.fullmatch(r"_ => \(Self::(\w+), (\d+)\),", line)
+            if mm:
+                rows.append(([], encs.index(mm.group(1)), int(mm.group(2))))
+                continue
+            raise TranslatorError(f"from_bom arm {line!r}")
+        A("(* Encoding::from_bom: (prefix bytes, encoding index, bytes consumed), first match wins *)")
+        A("Definition encoding_variants : list string := [" + "; ".join(coq_str(v) for v in encs) + "].")
+        A("Definition bom_table : list (list Z * Z * Z) := [" + "; ".join("([" + "; ".join(map(str, b)) + f"], {e}, {n})" for b, e, n in rows) + "].")
+
+    with blk("reader_decoder"):
+        t = src("reader/decoder.rs")
+        # read_bom: the repaired shape collects up to N bytes over several chunks
+        # (`while head.len() < N`); the shape before the repair of D4 looked at one
+        # chunk and dropped chunks shorter than N (`if len >= N || len == 0`).
+        m = re.search(r"while head\.len\(\) < (\d+) \{", t)
+        if m:
+            n = int(m.group(1))
+            m2 = must(r"let len = available\.len\(\)\.min\((\d+) - head\.len\(\)\);", t, "read_bom bytes taken per chunk")
+            m3 = must(r"let mut head = Vec::with_capacity\((\d+)\);", t, "read_bom head buffer")
+            if int(m2.group(1)) != n or int(m3.group(1)) != n:
+                raise TranslatorError("read_bom: the three occurrences of the BOM length disagree")
+            must(r"inner: Cursor::new\(head\)\.chain\(inner\),", t, "Decoder::new chains the collected head before the reader")
+            A("(* read_bom collects up to this many bytes (over several chunks) before from_bom *)")
+            A(f"Definition read_bom_min_len : Z := {n}.")
+            A("Definition read_bom_accumulates : bool := true.")
+        else:
+            m = must(r"if len >= (\d+) \|\| len == 0 \{", t, "read_bom minimum chunk")
+            A(f"Definition read_bom_min_len : Z := {int(m.group(1))}.")
+            A("Definition read_bom_accumulates : bool := false.")
+        # read_line: since the repair of D5 a byte 0x0A ends a UTF-16 line only as a code unit of its
+        # own (the loop around read_until); before, the first byte 0x0A ended the line.
+        if re.search(r"while self\.inner\.read_until\(b'\\n', &mut self\.read_buf\)\? > 0\s*&& self\.read_buf\.ends_with\(b\"\\n\"\)\s*\{", t):
+            must(r"Encoding::Utf8 => break,", t, "read_line: UTF-8 arm")
+            must(r"Encoding::Utf16BE => \{\s*if len % 2 == 0 && self\.read_buf\[len - 2\] == 0 \{\s*break;", t, "read_line: UTF-16BE arm")
+            must(r"Encoding::Utf16LE if len % 2 == 0 => \{\}", t, "read_line: UTF-16LE arm, 0x0A as high byte")
+            must(r"if matches!\(high, Some\(0\) \| None\) \{\s*break;", t, "read_line: UTF-16LE arm, high byte test")
+            must(r"if self\.read_buf\.is_empty\(\) \{\s*return Ok\(None\);", t, "read_line: end of stream")
+            A("(* Decoder::read_line ends a UTF-16 line at a code unit 0x000A only *)")
+            A("Definition read_line_unit_aligned : bool := true.")
+        else:
+            must(r"if self\.inner\.read_until\(b'\\n', &mut self\.read_buf\)\? == 0 \{", t, "read_line (shape before the repair of D5)")
+            A("Definition read_line_unit_aligned : bool := false.")
+
+    with blk("colors_decode"):
+        # ---- C11 additions: colours, flag value, positions the section parsers hard-wire
+        t = src("section/colors/decode.rs")
+        m = must(r'if s\.starts_with\("([^"]*)"\) \{\s*Ok\(Self::Combo\)', t, "ColorsKey combo prefix")
+        A(f"Definition colors_combo_prefix : string := {coq_str(m.group(1))}.")
+
+    with blk("colors_mod"):
+        t = src("section/colors/mod.rs")
+        m = must(r"Ok\(Self::new\(r\.parse\(\)\?, g\.parse\(\)\?, b\.parse\(\)\?, (\d+)\)\)", t, "Color::from_str alpha")
+        A(f"Definition color_default_alpha : Z := {int(m.group(1))}.")
+
+    with blk("general_decode_2"):
+        t = src("section/general/decode.rs")
+        flags = re.findall(r"state\.(\w+) = i32::parse\(value\)\? == (\d+);?", t)
+        if len(flags) != 5 or len({v for _, v in flags}) != 1:
+            raise TranslatorError(f"General flag conversions not recognised: {flags!r}")
+        A(f"Definition flag_true_value : Z := {int(flags[0][1])}.")
+        A("Definition general_flag_fields : list string := [" + "; ".join(coq_str(f) for f, _ in flags) + "].")
 
     return "\n".join(L) + "\n"
 
 
 def main():
+    out = os.path.normpath(OUT)
+    status = os.path.join(os.path.dirname(out), "translator_status.json")
     try:
         text = gen()
     except (TranslatorError, OSError) as e:
         print(f"TRANSLATOR-ERROR: {e}")
+        with open(status, "w") as f:
+            json.dump({"hard_failure": str(e), "failed": []}, f, indent=1)
         return 2
-    out = os.path.normpath(OUT)
+    with open(status, "w") as f:
+        json.dump({"failed": FAILED}, f, indent=1)
     old = None
     if os.path.exists(out):
         with open(out, encoding="utf-8") as f:
@@ -428,7 +558,9 @@ def main():
         print("Generated.v rewritten")
     else:
         print("Generated.v unchanged")
-    return 0
+    for fb in FAILED:
+        print(f"TRANSLATOR-BLOCK-UNREADABLE: {fb['block']}: {fb['error']} (kept: {', '.join(fb['names'])})")
+    return 3 if FAILED else 0
 
 
 if __name__ == "__main__":
